@@ -288,7 +288,7 @@ impl Group for C15 {
          mutual close, unilateral close and sweep, runs of 90..110 empty blocks around MIN_DEPTH=100, reorgs of depth 1-3; \
          non-trivial = a forget of an existing channel followed by a new_channel attempt or a heartbeat at depth >= 95"
     }
-    fn budget(&self, tier: Tier) -> usize { if tier == Tier::Quick { 40 } else { 600 } }
+    fn budget(&self, tier: Tier) -> usize { if tier == Tier::Quick { 400 } else { 8000 } }
     fn corpus(&self) -> Vec<Vec<String>> {
         let mk = |s: &str| -> Vec<String> {
             s.split('|').map(|x| {
